@@ -9,6 +9,7 @@ import (
 var registry = map[string]func() *check.Property{
 	"C02": C02,
 	"C03": C03,
+	"C07": C07,
 	"C09": C09,
 	"C12": C12,
 }
